@@ -165,7 +165,10 @@ class CliClient:
         self.open = False
         with contextlib.suppress(Exception):
             if how == "exit":
-                self.proc.stdin.write(b"exit\n")
+                # the CLI's exit command, in one of several spellings
+                self.nexit = getattr(CliClient, "_nexit", 0) + 1
+                CliClient._nexit = self.nexit
+                self.proc.stdin.write([b"exit\n", b"EXIT\n", b"  Exit \n"][self.nexit % 3])
                 await self.proc.stdin.drain()
             else:
                 self.proc.stdin.close()      # EOF on the prompt
